@@ -124,6 +124,7 @@ def factory(noise: bool, seed: str) -> LifeHarness:
         user=("start", "finish", "disc", "force", "cancel"),
         misuse=False,
         oracles=(C08Oracle(),),
+        etimedout=True,
     )
 
 
@@ -140,7 +141,7 @@ SCENARIOS: dict[str, tuple[bool, list[str]]] = {
     "noise-silent-device": (True, ["start", "tcp:ok", "finish", "time", "time"]),
 }
 USER_CAUSES = ("force", "disc", "cancel", "reent")
-NET_CAUSES = ("eof", "rst", "c:DR", "c:BAD", "c:PRE", "c:DR+ST", "c:DR+PR", "c:BAD+ST", "c:DR+H", "c:ST+ST", "c:ST+PR", "wf:sync", "wf:async")
+NET_CAUSES = ("eof", "rst", "etimedout", "c:DR", "c:BAD", "c:PRE", "c:DR+ST", "c:DR+PR", "c:BAD+ST", "c:DR+H", "c:ST+ST", "c:ST+PR", "wf:sync", "wf:async")
 
 
 def _inject(h: LifeHarness, w: LifeWorld, cause: str) -> bool:
@@ -179,6 +180,8 @@ def _inject(h: LifeHarness, w: LifeWorld, cause: str) -> bool:
         w.io_eof(s)
     elif cause == "rst":
         w.io_rst(s)
+    elif cause == "etimedout":
+        s.inbox.append(TimeoutError(110, "Connection timed out"))
     elif cause == "wf:sync":
         w.write_fault = OSError(32, "Broken pipe (armed)")
     elif cause == "wf:async":
